@@ -415,6 +415,22 @@ def check_override_isolation(how, acc):
             one = full['processes']['agents']['1']['p']
             two = full['processes']['agents']['2']['p']
             kept = composer.schema_override['p']['port']['x']['_default']
+        elif how == 'template':
+            # two processes hand out ONE schema object (a class-level
+            # template); a composite-level override names one of them
+            template = {'port': {'x': {'_default': 7, '_emit': True},
+                                 'y': {'_default': 2, '_emit': True}}}
+            mk = lambda pid: probes.Probe({  # noqa
+                'pid': pid, 'ts': 1, 'schema': template,
+                'schema_by_reference': True, 'update': {},
+                'log_states': False})
+            full = Composite({
+                'processes': {'a': mk('a'), 'b': mk('b')},
+                'topology': {'a': {'port': ('sa',)}, 'b': {'port': ('sb',)}},
+                '_schema': {'a': {'port': {'x': {'_default': 555}}}}})
+            one, two = full['processes']['a'], full['processes']['b']
+            one.get_schema()
+            kept = template['port']['x']['_default']
         else:
             params = dict(pspec('p', 's'),
                           _schema={'port': {'x': {'_default': 7}}})
@@ -436,6 +452,71 @@ def check_override_isolation(how, acc):
             f'{how}: an override (default 555) named ONE process; the '
             f'named process, its twin and the original override hold '
             f'{got}, expected (555, 7, 7)', case))
+
+
+def check_glob_entry(path, acc):
+    """A composite whose process observes a glob store; the initial state
+    handed to the engine names children of that store: through every
+    entry point the process is shown them from its first invocation and
+    the simulation is the same."""
+    case = {'part': 'glob-entry', 'path': path}
+    acc.case(key=('glob-entry', path), outcome='entry')
+    seen = {}
+    try:
+        for entry in ('composite', 'parts', 'store', 'store+state'):
+            counter = probes.Probe({
+                'pid': 'counter', 'ts': 1, 'log_states': False,
+                'schema': {'kids': {'*': {'m': {'_default': 1,
+                                                '_emit': True}}},
+                           'out': {'n': {'_default': -1, '_updater': 'set',
+                                         '_emit': True}}},
+                'update': {'out': {'n': {'$call': 'c16count'}}}})
+            comp = Composite()
+            comp.merge(processes={'counter': counter},
+                       topology={'counter': {'kids': ('kids',),
+                                             'out': ('out',)}}, path=path)
+            state = {}
+            node = state
+            for k in path:
+                node = node.setdefault(k, {})
+            node['kids'] = {'k1': {'m': 2}, 'k2': {'m': 3}}
+            if entry == 'composite':
+                comp.merge(state=state)
+                eng = run_engine(2, composite=comp)
+            elif entry == 'parts':
+                eng = run_engine(2, processes=comp['processes'],
+                                 steps=comp['steps'], flow=comp['flow'],
+                                 topology=comp['topology'],
+                                 initial_state=state)
+            elif entry == 'store':
+                eng = run_engine(2, store=comp.generate_store(
+                    {'initial_state': state}))
+            else:
+                eng = run_engine(2, store=comp.generate_store(),
+                                 initial_state=state)
+            rows = [get(r['snapshot'], path) for r in eng.emitter.records
+                    if r['table'] == 'history']
+            seen[entry] = [(r['out']['n'], sorted(r.get('kids', {})))
+                           for r in rows]
+    except Exception as e:  # noqa
+        acc.violate(fw.violation(
+            'C16.crash', f'glob-entry:{type(e).__name__}',
+            f'{case}: {e!r}', case))
+        return
+    want = [(-1, ['k1', 'k2']), (2, ['k1', 'k2']), (2, ['k1', 'k2'])]
+    if any(v != want for v in seen.values()):
+        acc.violate(fw.violation(
+            'C16.entry', 'glob-children-of-initial-state-not-seen',
+            f'composite at {path}: a process counts the children of a glob '
+            f'store that the initial state names (k1, k2); rows (count, '
+            f'children) per entry point {seen}, expected {want}', case))
+
+
+def _c16count(tpl, env):
+    return len(env.states.get('kids', {}))
+
+
+probes.TEMPLATE_HOOKS['c16count'] = _c16count
 
 
 def check_state_precedence(path, acc):
@@ -821,6 +902,9 @@ def run_job(job, acc):
     if kind == 'override-isolation':
         check_override_isolation(job[1], acc)
         return
+    if kind == 'glob-entry':
+        check_glob_entry(job[1], acc)
+        return
     if kind == 'override-survives':
         check_override_survives(job[1], job[2], acc)
         return
@@ -860,7 +944,9 @@ def jobs(ctx):
     for path in paths:
         out.append(('state-precedence', path))
     out += [('override-isolation', 'composer'),
-            ('override-isolation', 'parameters')]
+            ('override-isolation', 'parameters'),
+            ('override-isolation', 'template')]
+    out += [('glob-entry', path) for path in paths]
     calls = ('plain', 'config', 'path', 'initial_state', 'parameters')
     for order in itertools.permutations(calls, 3):
         if order[-1] in ('initial_state', 'parameters'):
@@ -895,6 +981,8 @@ def replay(case):
         check_merges(tup(case['sequence']), acc)
     elif case['part'] == 'late-override':
         check_late_override(case['template'], acc)
+    elif case['part'] == 'glob-entry':
+        check_glob_entry(tuple(case['path']), acc)
     elif case['part'] == 'override-isolation':
         check_override_isolation(case['how'], acc)
     elif case['part'] == 'state-precedence':
@@ -923,3 +1011,6 @@ RULE += (
 
 RULE += (
     " Template step-in-processes (a Step object listed under processes: it must run as a step through every entry point). State precedence: a state merged into the composite wins over the process's own initial_state() through every entry point. Composer reuse: one Composer generating twice gives independent composites. Override isolation: an override naming ONE of two processes generated from one Composer (or built from one parameters dictionary) reaches only that process.")
+
+RULE += (
+    ' Override isolation also for two processes that hand out ONE schema object (a composite-level override names one of them; the template object itself stays as it was). Glob entry: a process counts the children of a glob store that the initial state names - composite, parts, store built with the state, and store + initial_state show them from the first invocation on.')
